@@ -221,6 +221,9 @@ func (g Graph) kind(n int) string {
 	return "dangling"
 }
 
+// maxChain is CopierRef's MaxChain for real files: limits.MaxExtractDepth of go-pdf.
+const maxChain = 256
+
 // canon is CopierRef!Canon.
 func (g Graph) canon(n int) int {
 	seen := map[int]bool{}
@@ -228,9 +231,12 @@ func (g Graph) canon(n int) int {
 		if seen[n] {
 			return 0
 		}
-		seen[n] = true
 		switch g.kind(n) {
 		case "ref":
+			if len(seen)+1 >= maxChain {
+				return 0 // more references than a reader follows
+			}
+			seen[n] = true
 			n = g[n].To
 		case "val":
 			if g[n].V.T == "z" {
@@ -463,4 +469,66 @@ func refSkeleton(v Val) Val {
 		}
 	}
 	return nul()
+}
+
+// long is CopierRef!LongFrom: the chain from n is given up for its length.
+func (g Graph) long(n int) bool {
+	seen := map[int]bool{}
+	for !seen[n] && g.kind(n) == "ref" {
+		if len(seen)+1 >= maxChain {
+			return true
+		}
+		seen[n] = true
+		n = g[n].To
+	}
+	return false
+}
+
+// ambiguous is CopierRef!Ambiguous: an over-long chain is used from its head
+// and from a later reference; such sources are outside the property.
+func (g Graph) ambiguous(vals []Val) bool {
+	explicit := map[int]bool{}
+	seen := map[int]bool{}
+	var todo []int
+	for _, v := range vals {
+		for _, n := range v.refs(nil) {
+			explicit[n] = true
+			todo = append(todo, n)
+		}
+	}
+	for len(todo) > 0 {
+		n := todo[0]
+		todo = todo[1:]
+		if seen[n] {
+			continue
+		}
+		seen[n] = true
+		switch g.kind(n) {
+		case "ref":
+			todo = append(todo, g[n].To)
+		case "val":
+			for _, m := range g[n].V.refs(nil) {
+				explicit[m] = true
+				todo = append(todo, m)
+			}
+		}
+	}
+	for h := range explicit {
+		if !g.long(h) {
+			continue
+		}
+		on := map[int]bool{}
+		for n := h; !on[n]; n = g[n].To {
+			on[n] = true // the links and the object at the end
+			if g.kind(n) != "ref" {
+				break
+			}
+		}
+		for j := range explicit {
+			if j != h && on[j] {
+				return true
+			}
+		}
+	}
+	return false
 }
